@@ -1,19 +1,19 @@
 (* C11 — streaming subscribers materialize exactly the server's state.
    Theorems only; each closed by an application of a lemma of Stream/Proofs.v.
 
-   The machine ([Stream.Model]): a store, the queue of committed-but-unpublished batches (publishCh),
-   per topic/subject buffers, the snapshot cache, and clients = materializer + subscription.
-   [run cache ls] executes a schedule of Commit / Publish(one batch) / Subscribe / Next / Unsub /
-   Restore / Evict labels from the initial state; all theorems quantify over ALL schedules.
+   The machine ([Stream.Model]) mirrors /repo after the four C11 repairs (2bf672d, 949dae4, 9502e45,
+   f559b0f): a store, the queue of committed-but-unpublished batches tagged with the publisher's
+   generation (publishCh), per topic/subject buffers with object identity, the snapshot cache, and
+   clients = materializer + subscription (with its snapshotIndex).  [run cache ls] executes a schedule
+   of Commit / Publish(one batch) / Subscribe / Next / Unsub / Restore / Evict labels from the initial
+   state; all theorems quantify over ALL schedules — however commits, publication, subscription start
+   (fresh, resumed, cached snapshot), consumption, restores and cache evictions interleave.
 
-   Hypotheses (all decidable predicates on the schedule, defined in Model.v):
-     env_ok   Raft indexes grow strictly and a query's index covers every commit that touched its
-              subject (step_ok); the events of a commit describe its whole effect on the query results
-              (events_ok); a Restore finds an empty publish queue and nobody subscribes on a topic
-              buffer that outlived a Restore (restore_ok)
-     gap_free no snapshot is taken while a committed batch is still waiting to be published
-   The three parts of env_ok and gap_free are each shown necessary by a refutation witness that the
-   real code reproduces (known findings). *)
+   The only hypothesis left is [env_ok] (Model.step_ok at every step): Raft indexes grow strictly; the
+   index a query reports is not smaller than the index of any commit that touched its subject and not
+   larger than the last raft index; a restored store has one row per key.  Its query-index clause is
+   broken by the real state store in one class (known finding query-index-behind-content, belongs with
+   C06); it is shown necessary below. *)
 From Verif Require Import Base.Prelude Stream.Model Stream.Proofs.
 Local Open Scope N_scope.
 
@@ -26,17 +26,16 @@ Definition C11_view_is_some_committed_state_statement (hyp : bool -> list label 
     client_of (run cache ls) k = Some x -> c_idx x <> 0 -> c_epoch x = st_epoch (run cache ls) ->
     forall key, aget key (c_view x) = content_at (run cache ls) (c_ts x) (c_idx x) key.
 
-Theorem C11_view_is_some_committed_state_partial :
-  C11_view_is_some_committed_state_statement (fun cache ls => env_ok cache ls /\ gap_free cache ls).
-Proof. intros cache ls k x [He Hg]. exact (view_exact cache ls k x He Hg). Qed.
+Theorem C11_view_is_some_committed_state_partial : C11_view_is_some_committed_state_statement env_ok.
+Proof. intros cache ls k x He. exact (view_exact cache ls k x He). Qed.
 
-(* without gap_free it is false: snapshot@11 = {A:2, B:3}, then the event of index 10 (A:1) is delivered:
-   the view {A:1, B:3} at "index 10" has a row B that the store did not have at 10 *)
+(* without the query-index clause it is false: the query reports index 10 for a result that contains
+   commit 11; the snapshot {A, B} is applied at "index 10", where the store had only A *)
 Theorem C11_view_is_some_committed_state_refuted :
-  ~ C11_view_is_some_committed_state_statement env_ok.
+  ~ C11_view_is_some_committed_state_statement (fun cache ls => all_from raft_ok (init cache) ls = true).
 Proof.
-  intros H. destruct hybrid_witness as (x & He & Hx & Hi & Hep & Hv & Hc).
-  specialize (H true hybrid_sched 0 x He Hx). rewrite Hi in H. specialize (H ltac:(discriminate) Hep kB).
+  intros H. destruct index_behind_witness as (x & He & Hx & Hi & Hep & Hv & Hc).
+  specialize (H true index_behind_sched 0 x He Hx). rewrite Hi in H. specialize (H ltac:(discriminate) Hep kB).
   rewrite Hi in Hc. congruence.
 Qed.
 
@@ -46,7 +45,7 @@ Theorem C11_query_is_log : forall cache ls T key,
   content_now (run cache ls) T key = content_at (run cache ls) T (st_hi (run cache ls)) key.
 Proof. intros cache ls T key. exact (query_is_log cache ls T key). Qed.
 
-(* ---- eventual: nothing left to deliver -> the view is the current query result (gap or not) *)
+(* ---- eventual: nothing left to deliver -> the view is the current query result *)
 Theorem C11_eventual : forall cache ls k x,
   env_ok cache ls ->
   client_of (run cache ls) k = Some x -> is_open x = true -> streaming x = true ->
@@ -54,40 +53,28 @@ Theorem C11_eventual : forall cache ls k x,
   forall key, aget key (c_view x) = content_now (run cache ls) (c_ts x) key.
 Proof. exact eventual. Qed.
 
-(* ---- no skip, no duplicate: what a streaming client will still be handed is exactly, in order and once
-   each, the commits that touched its subject after its index (and everything up to its index is in the
-   view, by C11_view_is_some_committed_state_partial) *)
+(* ---- no skip, no duplicate: what Next will still hand to a streaming client is exactly, in order and
+   once each, the commits that touched its subject after its index (and everything up to its index is in
+   the view, by C11_view_is_some_committed_state_partial) *)
 Theorem C11_no_skip : forall cache ls k x,
-  env_ok cache ls -> gap_free cache ls ->
+  env_ok cache ls ->
   client_of (run cache ls) k = Some x -> is_open x = true -> streaming x = true ->
   pending (run cache ls) x = proj (c_ts x) (log_after (c_idx x) (st_log (run cache ls))).
 Proof. exact no_skip. Qed.
 
 (* ---- delivered indexes never decrease (NewSnapshotToFollow resets the view and is not an update) *)
-Definition C11_monotone_statement (hyp : bool -> list label -> Prop) : Prop :=
-  forall cache ls k x st' it x',
-    hyp cache ls ->
-    client_of (run cache ls) k = Some x ->
-    step (run cache ls) (LNext k) = (st', ODeliver it) -> it <> INstf ->
-    client_of st' k = Some x' ->
-    c_idx x <= c_idx x'.
+Theorem C11_monotone : forall cache ls k x st' it x',
+  env_ok cache ls ->
+  client_of (run cache ls) k = Some x ->
+  step (run cache ls) (LNext k) = (st', ODeliver it) -> it <> INstf ->
+  client_of st' k = Some x' ->
+  c_idx x <= c_idx x'.
+Proof. exact monotone. Qed.
 
-Theorem C11_monotone_partial :
-  C11_monotone_statement (fun cache ls => env_ok cache ls /\ gap_free cache ls).
-Proof. intros cache ls k x st' it x' [He Hg]. exact (monotone cache ls k x st' it x' He Hg). Qed.
-
-(* C11_monotone at full strength is false of the code (DESIGN.md section 9, finding 11): two commits
-   queued, subscribe, publish: snapshot@11, EndOfSnapshot@11, then the event of index 10 *)
-Theorem C11_monotone_refuted : ~ C11_monotone_statement env_ok.
-Proof.
-  intros H. destruct monotone_witness as (x & st' & it & x' & He & Hx & Hs & Hn & Hx' & Hi & Hi').
-  specialize (H true gap_sched 0 x st' it x' He Hx Hs Hn Hx'). rewrite Hi, Hi' in H. lia.
-Qed.
-
-(* ---- forced resubscription: after Restore (every subscription) and after the publication of a batch
-   whose closeSubscription event names the subscription's token, Next returns the close error — and keeps
-   returning it, whatever else happens, until that client unsubscribes or subscribes again.
-   These hold in EVERY state of the machine (no assumption on the schedule). *)
+(* ---- forced resubscription: after Restore (every subscription) and after the publication of a batch of
+   the current generation whose closeSubscription event names the subscription's token, Next returns the
+   close error — and keeps returning it, whatever else happens, until that client unsubscribes or
+   subscribes again.  These hold in EVERY state of the machine (no assumption on the schedule). *)
 Theorem C11_forced_resubscribe_restore : forall st rows hi c x sb ls,
   client_of st c = Some x -> c_sub x = Some sb -> none_touch c ls = true ->
   exists s, snd (step (run_from (fst (step st (LRestore rows hi))) ls) (LNext c)) = OClosed s /\ s <> Open.
@@ -97,51 +84,33 @@ Proof.
 Qed.
 
 Theorem C11_forced_resubscribe_acl : forall st b q c x sb ls,
-  st_queue st = b :: q -> client_of st c = Some x -> c_sub x = Some sb -> In (c_tok x) (b_close b) ->
-  none_touch c ls = true ->
+  st_queue st = (st_epoch st, b) :: q -> client_of st c = Some x -> c_sub x = Some sb ->
+  In (c_tok x) (b_close b) -> none_touch c ls = true ->
   exists s, snd (step (run_from (fst (step st LPublish)) ls) (LNext c)) = OClosed s /\ s <> Open.
 Proof.
   intros st b q c x sb ls Hq Hx Hs Hin Hn. apply closed_until_resubscribe; [|exact Hn].
   eapply acl_publish_closes; eauto.
 Qed.
 
-(* ---- the remaining assumptions are necessary too (each witness is reproduced on the real code):
-   a client with nothing left to receive whose view differs from the current query result *)
+(* ---- the schedules of the repaired findings, on the repaired machine: the client ends with exactly the
+   current rows, nothing pending, Next blocks *)
 
-(* restore_ok, first half: a topic buffer that outlives a Restore hands an event of the replaced
-   store to a subscriber of the new one *)
-Theorem C11_restore_keeps_topic_buffer_refuted :
-  valid_from (init true) restore_buffer_sched = true /\
-  all_from events_ok (init true) restore_buffer_sched = true /\
-  gap_free true restore_buffer_sched /\ st_queue (run true restore_buffer_sched) = [] /\
-  stale_view true restore_buffer_sched.
+(* finding 11 (subscribe in the commit/publish gap): snapshot@11 = {A:2, B:3}; the queued batches 10 and
+   11 are skipped by Next, the index never goes back to 10 *)
+Example C11_gap_schedule_repaired : settled true gap_sched [(kA, 2); (kB, 3)] 11.
+Proof. exact gap_witness. Qed.
+
+(* a second subscriber holds its subscription across the restore: the topic buffer is dropped with it *)
+Example C11_restore_topic_buffer_repaired : settled true restore_buffer_sched [(kA, 1)] 10.
 Proof. exact restore_buffer_witness. Qed.
 
-(* restore_ok, second half: a batch of the replaced store still queued at the Restore is published afterwards *)
-Theorem C11_restore_keeps_publish_queue_refuted :
-  valid_from (init true) restore_queue_sched = true /\
-  all_from events_ok (init true) restore_queue_sched = true /\
-  st_queue (run true restore_queue_sched) = [] /\
-  stale_view true restore_queue_sched.
+(* a batch of the replaced store still queued at the restore is dropped when its turn comes *)
+Example C11_restore_publish_queue_repaired : settled true restore_queue_sched [(kA, 1)] 10.
 Proof. exact restore_queue_witness. Qed.
 
-(* events_ok: a commit that changes a query result without an event *)
-Theorem C11_unannounced_change_refuted :
-  valid_from (init true) silent_sched = true /\
-  all_from restore_ok (init true) silent_sched = true /\
-  gap_free true silent_sched /\ st_queue (run true silent_sched) = [] /\
-  stale_view true silent_sched.
-Proof. exact silent_witness. Qed.
-
-(* ---- non-vacuity: a schedule meeting every hypothesis, with a snapshot, two events (one a
-   deregistration together with an ACL close for another token), ending in a streaming client with a
-   non-trivial view and nothing pending *)
-Example C11_hypotheses_satisfiable :
-  exists x,
-    env_ok true clean_sched /\ gap_free true clean_sched /\
-    client_of (run true clean_sched) 0 = Some x /\ c_idx x = 12 /\
-    c_epoch x = st_epoch (run true clean_sched) /\ is_open x = true /\ streaming x = true /\
-    c_view x = [(kB, 2)] /\ pending (run true clean_sched) x = [].
+(* ---- non-vacuity: a schedule meeting the hypothesis, with a snapshot, two events (one a
+   deregistration together with an ACL close for another token) *)
+Example C11_hypotheses_satisfiable : settled true clean_sched [(kB, 2)] 12.
 Proof. exact clean_witness. Qed.
 
 Print Assumptions C11_view_is_some_committed_state_partial.
@@ -149,11 +118,10 @@ Print Assumptions C11_view_is_some_committed_state_refuted.
 Print Assumptions C11_query_is_log.
 Print Assumptions C11_eventual.
 Print Assumptions C11_no_skip.
-Print Assumptions C11_monotone_partial.
-Print Assumptions C11_monotone_refuted.
+Print Assumptions C11_monotone.
 Print Assumptions C11_forced_resubscribe_restore.
 Print Assumptions C11_forced_resubscribe_acl.
-Print Assumptions C11_restore_keeps_topic_buffer_refuted.
-Print Assumptions C11_restore_keeps_publish_queue_refuted.
-Print Assumptions C11_unannounced_change_refuted.
+Print Assumptions C11_gap_schedule_repaired.
+Print Assumptions C11_restore_topic_buffer_repaired.
+Print Assumptions C11_restore_publish_queue_repaired.
 Print Assumptions C11_hypotheses_satisfiable.
